@@ -6,6 +6,7 @@
 //       -> "err:<class of the std::exception>"
 //       -> "OOB:<where>"         the GUARDED walk found a traversal that leaves the item / buffer
 //       -> "NONSTD"              something not derived from std::exception escaped
+//       small-buffer builds (-DC03_GROWTH_TRACE) append " #g:<builder calls during which the buffer grew>"
 //   gen <fmt> <n> <seed> [<format options>]   small valid file written by the REAL Writer -> hex
 //   lay <script>             build ONE object with the real builders from a script (see build_script)
 //                            -> "<hex of the committed bytes> <guarded-walk verdict ok|OOB:..>"
@@ -52,6 +53,145 @@ static std::string class_of(const std::exception& e) {
     if (p != std::string::npos) s = s.substr(p + 2);
     return s;
 }
+
+// ---- growth trace (small-buffer builds only: -DC03_GROWTH_TRACE -fno-inline -rdynamic) -------------
+// The small-buffer builds (-DOSMIUM_VERIF_PARSER_INITIAL_BUFFER_SIZE=<n> -DOSMIUM_VERIF_PBF_INITIAL_BUFFER_SIZE=<n>)
+// exist to make the parser buffers grow WHILE a builder call is running.  To know (and report as coverage)
+// at which builder call the growth happened, the global operator new[] is replaced: Buffer::grow() and
+// Buffer::grow_internal() are the only callers of `new unsigned char[]` below Buffer::reserve_space().
+// The replaced operator walks the stack (backtrace + dladdr; all inline library functions are exported
+// by -rdynamic and kept as frames by -fno-inline) and records
+//      <builder call>+<return address, relative to the executable>/<generic helper of class Builder|direct>/<grow|grow_internal>
+// `rd` appends the sorted distinct sites of the input as " #g:site,site,...".  Memory still comes from
+// malloc/free, i.e. from ASan's allocator: a stale pointer into a freed buffer is reported as before.
+#ifdef C03_GROWTH_TRACE
+#include <dlfcn.h>
+#include <execinfo.h>
+#include <map>
+#include <mutex>
+#include <new>
+#include <set>
+
+namespace gtrace {
+
+    static std::mutex g_mutex;
+    static std::set<std::string>* g_sites = nullptr;        // heap objects: usable during static destruction
+    static std::map<void*, std::string>* g_names = nullptr;
+    static thread_local bool t_inside = false;
+
+    // "osmium::builder::X::f(args)" -> "X::f"; other names unchanged up to '('
+    static std::string short_name(void* pc, std::size_t* offset) {
+        Dl_info info{};
+        *offset = 0;
+        if (!dladdr(pc, &info) || !info.dli_sname) {
+            return "?";
+        }
+        // offset of the return address inside the executable (python resolves it to file:line with addr2line)
+        *offset = static_cast<std::size_t>(static_cast<char*>(pc) - static_cast<char*>(info.dli_fbase));
+        auto it = g_names->find(info.dli_saddr);
+        if (it != g_names->end()) {
+            return it->second;
+        }
+        int status = 0;
+        char* d = abi::__cxa_demangle(info.dli_sname, nullptr, nullptr, &status);
+        std::string s = (status == 0 && d) ? d : info.dli_sname;
+        std::free(d);
+        // cut the parameter list: the '(' at template depth 0
+        int depth = 0;
+        std::size_t cut = s.size();
+        for (std::size_t i = 0; i < s.size(); ++i) {
+            if (s[i] == '<') ++depth;
+            else if (s[i] == '>') --depth;
+            else if (s[i] == '(' && depth == 0) { cut = i; break; }
+        }
+        s.resize(cut);
+        // drop a leading return type ("T* f<T>" of function templates)
+        depth = 0;
+        for (std::size_t i = s.size(); i-- > 0;) {
+            if (s[i] == '>') ++depth;
+            else if (s[i] == '<') --depth;
+            else if (s[i] == ' ' && depth == 0) { s = s.substr(i + 1); break; }
+        }
+        for (const char* ns : {"osmium::builder::", "osmium::memory::", "osmium::"}) {
+            for (std::size_t p; (p = s.find(ns)) != std::string::npos;) s.erase(p, std::strlen(ns));
+        }
+        for (char& c : s) if (c == ' ' || c == ',') c = '_';
+        (*g_names)[info.dli_saddr] = s;
+        return s;
+    }
+
+    static bool is_builder_frame(void* pc) {
+        Dl_info info{};
+        return dladdr(pc, &info) && info.dli_sname && std::strstr(info.dli_sname, "6osmium7builder") != nullptr;
+    }
+
+    static void note_allocation() {
+        if (t_inside) return;
+        t_inside = true;
+        void* pcs[24];
+        const int n = backtrace(pcs, 24);
+        std::lock_guard<std::mutex> lock{g_mutex};
+        if (!g_sites) { g_sites = new std::set<std::string>; g_names = new std::map<void*, std::string>; }
+        // frames: .. operator new[] (k) / Buffer::grow|grow_internal / Buffer::reserve_space / Builder::reserve_space /
+        //         [generic helpers of class Builder: Builder(), reserve_space_for<T>, append, append_with_zero] / the builder call
+        int k = 0;
+        while (k < n && k < 4) {
+            Dl_info info{};
+            if (dladdr(pcs[k], &info) && info.dli_sname && std::strcmp(info.dli_sname, "_Znam") == 0) break;
+            ++k;
+        }
+        std::size_t off = 0;
+        if (k < 4 && k + 3 < n) {
+            const std::string how = short_name(pcs[k + 1], &off);
+            const std::string rs = short_name(pcs[k + 2], &off);
+            if ((how == "Buffer::grow" || how == "Buffer::grow_internal") && rs == "Buffer::reserve_space") {
+                int i = k + 3;
+                std::string helper;
+                std::string name;
+                while (i < n && is_builder_frame(pcs[i])) {
+                    name = short_name(pcs[i], &off);
+                    if (name.rfind("Builder::", 0) != 0) break;
+                    if (name != "Builder::reserve_space") helper = name;
+                    ++i;
+                }
+                std::string site;
+                if (i < n && is_builder_frame(pcs[i])) {
+                    char buf[32];
+                    std::snprintf(buf, sizeof(buf), "+%zx", off);
+                    site = name + buf + "/" + (helper.empty() ? "direct" : helper.substr(9));
+                } else {
+                    site = "(no-builder-call)/" + (i < n ? short_name(pcs[i], &off) : std::string{"?"});
+                }
+                g_sites->insert(site + "/" + how.substr(8));
+            }
+        }
+        t_inside = false;
+    }
+
+    static std::string take_sites() {
+        std::lock_guard<std::mutex> lock{g_mutex};
+        std::string out;
+        if (g_sites) {
+            for (const auto& s : *g_sites) {
+                out += out.empty() ? "" : ",";
+                out += s;
+            }
+            g_sites->clear();
+        }
+        return out;
+    }
+
+} // namespace gtrace
+
+void* operator new[](std::size_t size) {
+    void* p = std::malloc(size ? size : 1);
+    if (!p) throw std::bad_alloc{};
+    gtrace::note_allocation();
+    return p;
+}
+void operator delete[](void* p) noexcept { std::free(p); }
+void operator delete[](void* p, std::size_t) noexcept { std::free(p); }
+#endif // C03_GROWTH_TRACE
 
 // ---- guarded walk ------------------------------------------------------------------------------
 struct Oob {
@@ -585,6 +725,9 @@ int main() {
                     out = "wrong-build";
                 } else {
                     out = run_rd(w[2], w[3], static_cast<unsigned>(std::stoul(w[4])), data);
+#ifdef C03_GROWTH_TRACE
+                    out += " #g:" + gtrace::take_sites();
+#endif
                 }
             } else if ((w.size() == 4 || w.size() == 5) && w[0] == "gen") {
                 out = run_gen(w[1], std::stoul(w[2]), std::stoull(w[3]), w.size() == 5 ? w[4] : "");
